@@ -903,3 +903,177 @@ func sweepSessionSizes(ss int, a *attackSession) [2][]int {
 	sweepSizeCache[ss] = out
 	return out
 }
+
+// ---- CBC padding with the reference as sender ---------------------------
+//
+// The reference client sends protected records whose CBC padding length is
+// chosen freely (every legal value 0..255 is reachable) or whose padding / MAC
+// is corrupted in exactly one byte; the gmtls server is the receiver.
+// Enumerated: run k -> (mode, padding length, corrupted position).
+
+var padAttackReach = []string{"pad-valid-delivered", "pad>=128-accepted", "pad-255-accepted", "bad-padding-byte-rejected", "bad-mac-rejected", "pad-gcm-control"}
+
+func init() {
+	register(Family{Name: "tls-record-padding", Prop: "C07", ID: 703, Weight: 1, FaultNames: []string{"padding-length", "bad-padding-byte", "bad-mac"}, ReachNames: padAttackReach, Run: runRecordPadding, Enum: padEnum})
+}
+
+func padEnum(seed uint64, k uint64) []uint32 {
+	// [session seed, mode (0 valid,1 bad pad byte,2 bad mac), pad length, position]
+	return []uint32{uint32(simkit.Mix(seed, 703, k/2048) % (1 << 30)), uint32((k / 256) % 3), uint32(k % 256), uint32((k / 768) % 256)}
+}
+
+func runRecordPadding(c *simkit.Choice, r *simkit.Rec) {
+	pki.Load()
+	ss := c.Choose(1<<30, simkit.LScen)
+	mode := c.Choose(3, simkit.LFault)
+	padLen := c.Choose(256, simkit.LFault)
+	pos := c.Choose(256, simkit.LFault)
+	inner := simkit.NewChoice(uint64(ss)*40503 + 3)
+	n := inner.Range(1, 300, simkit.LScen)
+	payload := drawData(inner, n)
+	pre := drawData(inner, inner.Range(1, 100, simkit.LScen))
+	entS := simkit.NewStream(uint64(inner.Choose(1<<31, simkit.LEntropy)) + 71)
+	entC := simkit.NewStream(uint64(inner.Choose(1<<31, simkit.LEntropy)) + 73)
+	s := simkit.NewSim(c, simkit.Policy{StarveNode: -1}, 2000000)
+	a, b := s.NewConnPair("ref", "srv", simkit.NetCfg{}, simkit.NetCfg{})
+	var got []byte
+	var rerr, hsErr error
+	afterN := -1
+	done := false
+	s.Spawn("srv", 1, func() {
+		cfg := &gmtls.Config{GMSupport: gmtls.NewGMSupport(), Rand: entS, Time: simTime(s, 0), Certificates: gmServerCerts("srv-sign", "srv-enc"), CipherSuites: []uint16{gmtls.GMTLS_ECC_SM4_CBC_SM3}, SessionTicketsDisabled: true}
+		conn := gmtls.Server(b, cfg)
+		if hsErr = conn.Handshake(); hsErr != nil {
+			b.Close()
+			done = true
+			return
+		}
+		buf := make([]byte, 4096)
+		for {
+			m, err := conn.Read(buf)
+			got = append(got, buf[:m]...)
+			if err == io.EOF {
+				break
+			}
+			if err != nil {
+				rerr = err
+				afterN, _ = conn.Read(buf)
+				break
+			}
+		}
+		conn.Close()
+		done = true
+	})
+	var refErr error
+	var alerts [][2]byte
+	s.Spawn("ref", 0, func() {
+		pc := reftls.NewConn(a)
+		a.SetReadDeadlineNS(s.Now + 60e9)
+		res, err := reftls.ClientHandshake(pc, &reftls.ClientCfg{Rand: entC, Suites: []uint16{reftls.SuiteCBC}, ServerName: "server.sim"})
+		if err != nil || !res.Complete {
+			refErr = fmt.Errorf("reference handshake: %v", err)
+			a.Close()
+			return
+		}
+		pc.WriteRecord(reftls.RecApp, pre) // an ordinary record first
+		o := &reftls.ProtectOpts{PadLen: padLen, BadPadAt: -1}
+		switch mode {
+		case 1:
+			o.BadPadAt = pos
+		case 2:
+			o.BadMAC = true
+		}
+		pc.WriteRecordOpts(reftls.RecApp, payload, o)
+		pc.WriteRecord(reftls.RecApp, []byte("tail"))
+		pc.CloseNotify()
+		for {
+			if _, err := pc.ReadApp(); err != nil {
+				break
+			}
+		}
+		alerts = pc.AlertsIn
+		a.Close()
+	})
+	s.Run()
+	r.FromSim(s)
+	r.Nontrivial = true
+	r.Config = fmt.Sprintf("padding/mode%d", mode)
+	r.Sig(uint64(mode)<<16 | uint64(padLen)<<8 | uint64(pos))
+	r.Detail = map[string]interface{}{"session_seed": ss, "mode": []string{"valid-padding", "one-padding-byte-corrupted", "mac-corrupted"}[mode], "requested_pad_len": padLen, "position": pos, "payload": n, "server_read": len(got), "server_err": errStr(rerr)}
+	s.TaskPanics(r)
+	if r.Violation() != nil || r.HarnessErr != "" {
+		return
+	}
+	site := "e013/padding"
+	if refErr != nil || hsErr != nil {
+		r.Violate("honest-peer-rejected", site, fmt.Sprintf("handshake with the reference client failed: %v / %v", refErr, hsErr))
+		return
+	}
+	if !done {
+		r.Violate("keeps-waiting", site, fmt.Sprintf("server did not finish: %v", s.Blocked))
+		return
+	}
+	// effective padding length: smallest legal value >= requested (mod 16 class), <= 255
+	fatal := false
+	for _, al := range alerts {
+		if al[0] == reftls.AlertFatal {
+			fatal = true
+		}
+	}
+	switch mode {
+	case 0:
+		r.Fault(0)
+		want := append(append(append([]byte(nil), pre...), payload...), []byte("tail")...)
+		if rerr != nil || !bytes.Equal(got, want) {
+			r.Violate("valid-padding-rejected", site, fmt.Sprintf("record with legal CBC padding (requested length %d) was not delivered intact: err=%v, %d of %d bytes", padLen, rerr, len(got), len(want)))
+			return
+		}
+		r.Reach(idx(padAttackReach, "pad-valid-delivered"))
+		if padLen >= 128 {
+			r.Reach(idx(padAttackReach, "pad>=128-accepted"))
+		}
+		if padLen >= 240 {
+			r.Reach(idx(padAttackReach, "pad-255-accepted"))
+		}
+		r.Outcome = "delivered"
+	default:
+		r.Fault(mode)
+		// a padding byte can only be corrupted if there is padding besides the length byte
+		if mode == 1 && bytes.Equal(got, append(append(append([]byte(nil), pre...), payload...), []byte("tail")...)) && rerr == nil {
+			// effective padding length 0: nothing to corrupt — the sender left the record valid
+			min := 15 - (n+32)%16
+			eff := padLen
+			if eff < min {
+				eff = min
+			}
+			if min == 0 && padLen == 0 {
+				r.Outcome = "no-padding-byte-to-corrupt"
+				return
+			}
+			r.Violate("tampering-undetected", site, fmt.Sprintf("record with a corrupted CBC padding byte (pad length >= %d, position %d) was accepted", eff, pos))
+			return
+		}
+		if !bytes.Equal(got, pre) {
+			r.Violate("wrong-delivery", site, fmt.Sprintf("server was handed %d bytes; only the %d bytes of the record before the corrupted one may be delivered", len(got), len(pre)))
+			return
+		}
+		if rerr == nil {
+			r.Violate("tampering-undetected", site, "server read a clean EOF after a corrupted record")
+			return
+		}
+		if afterN > 0 {
+			r.Violate("error-not-sticky", site, "data delivered after the fatal error")
+			return
+		}
+		if !fatal {
+			r.Violate("no-fatal-alert", site, fmt.Sprintf("record rejected (%v) without a fatal alert", rerr))
+			return
+		}
+		if mode == 1 {
+			r.Reach(idx(padAttackReach, "bad-padding-byte-rejected"))
+		} else {
+			r.Reach(idx(padAttackReach, "bad-mac-rejected"))
+		}
+		r.Outcome = "rejected-with-alert"
+	}
+}
